@@ -319,6 +319,11 @@ class Operation(ElementBase):
     def invert(self) -> "Operation":
         """Flips top and bottom face"""
         self.top_face, self.bottom_face = self.bottom_face, self.top_face
+
+        # each side edge now runs from its former end to its former start
+        for edge in self.side_edges:
+            edge.reverse()
+
         return self
 
     def mirror(self, normal: VectorType, origin: Optional[PointType] = None):
